@@ -11,6 +11,7 @@ import (
 	"crypto/tls"
 	"crypto/x509"
 	"crypto/x509/pkix"
+	"encoding/pem"
 	"fmt"
 	"math/big"
 	"net"
@@ -54,9 +55,40 @@ func selfSigned(sameNames bool) tls.Certificate {
 	return tls.Certificate{Certificate: [][]byte{der}, PrivateKey: key}
 }
 
-// intruder credential classes: 0 plaintext, 1 TLS without certificate, 2 fresh self-signed, 3 right names / other key
+// a certificate authority that the family installs as the ONLY entry of the machine's trust store (SSL_CERT_FILE /
+// SSL_CERT_DIR, for this process and the plugins it launches), and a leaf it issued
+var sysCA struct {
+	cert *x509.Certificate
+	key  *ecdsa.PrivateKey
+	pem  []byte
+}
+
+func makeSysCA() {
+	key, _ := ecdsa.GenerateKey(elliptic.P256(), crand.Reader)
+	tmpl := &x509.Certificate{SerialNumber: big.NewInt(time.Now().UnixNano()), Subject: pkix.Name{CommonName: "machine trust store CA"},
+		NotBefore: time.Now().Add(-time.Minute), NotAfter: time.Now().Add(time.Hour), IsCA: true, BasicConstraintsValid: true,
+		KeyUsage: x509.KeyUsageCertSign | x509.KeyUsageDigitalSignature}
+	der, _ := x509.CreateCertificate(crand.Reader, tmpl, tmpl, key.Public(), key)
+	sysCA.cert, _ = x509.ParseCertificate(der)
+	sysCA.key = key
+	sysCA.pem = pem.EncodeToMemory(&pem.Block{Type: "CERTIFICATE", Bytes: der})
+}
+
+func sysIssuedLeaf() tls.Certificate {
+	key, _ := ecdsa.GenerateKey(elliptic.P256(), crand.Reader)
+	tmpl := &x509.Certificate{SerialNumber: big.NewInt(time.Now().UnixNano()), Subject: pkix.Name{CommonName: "somebody.example"},
+		DNSNames: []string{"localhost", "somebody.example"}, NotBefore: time.Now().Add(-time.Minute), NotAfter: time.Now().Add(time.Hour),
+		KeyUsage: x509.KeyUsageDigitalSignature | x509.KeyUsageKeyEncipherment, ExtKeyUsage: []x509.ExtKeyUsage{x509.ExtKeyUsageClientAuth, x509.ExtKeyUsageServerAuth}}
+	der, _ := x509.CreateCertificate(crand.Reader, tmpl, sysCA.cert, key.Public(), sysCA.key)
+	return tls.Certificate{Certificate: [][]byte{der, sysCA.cert.Raw}, PrivateKey: key}
+}
+
+// intruder credential classes: 0 plaintext, 1 TLS without certificate, 2 fresh self-signed, 3 right names / other key,
+// 4 a certificate issued by an authority of the machine's trust store
 func intruderTLS(class int) *tls.Config {
 	switch class {
+	case 4:
+		return &tls.Config{InsecureSkipVerify: true, MinVersion: tls.VersionTLS12, Certificates: []tls.Certificate{sysIssuedLeaf()}, ServerName: "localhost"}
 	case 1:
 		return &tls.Config{InsecureSkipVerify: true, MinVersion: tls.VersionTLS12}
 	case 2:
@@ -200,7 +232,15 @@ func runOneMTLS(c mtCaseTLS, base string, idx int, put func(in, obs sx.V)) {
 		rec(mainPath, 9, true, false)
 		return
 	}
-	defer cl.Kill()
+	defer func() {
+		// bounded: what Kill does is C04's subject, not this family's
+		done := make(chan struct{})
+		go func() { cl.Kill(); close(done) }()
+		select {
+		case <-done:
+		case <-time.After(10 * time.Second):
+		}
+	}()
 	_, e := caller.Call(vp.Req{Op: "tag"})
 	rec(mainPath, 9, true, e == nil)
 	known := map[string]bool{}
@@ -212,7 +252,7 @@ func runOneMTLS(c mtCaseTLS, base string, idx int, put func(in, obs sx.V)) {
 		}
 		return netrpcAttempt(sock, intruderTLS(class))
 	}
-	for class := 0; class < 4; class++ {
+	for class := 0; class < 5; class++ {
 		rec(mainPath, class, true, attempt(mainSock, class, c.Proto == "grpc", c.Mux))
 	}
 	if c.Proto != "grpc" || c.Mux {
@@ -222,7 +262,7 @@ func runOneMTLS(c mtCaseTLS, base string, idx int, put func(in, obs sx.V)) {
 	// plugin-side brokered listener
 	if _, err := caller.Call(vp.Req{Op: "accept", ID: 50}); err == nil {
 		if sock := newSocket(pdir, known); sock != "" {
-			for class := 0; class < 4; class++ {
+			for class := 0; class < 5; class++ {
 				rec(2, class, true, attempt(sock, class, true, false))
 			}
 		}
@@ -247,7 +287,7 @@ func runOneMTLS(c mtCaseTLS, base string, idx int, put func(in, obs sx.V)) {
 		return s
 	})
 	if sock := newSocket(hdir, hknown); sock != "" {
-		for class := 0; class < 4; class++ {
+		for class := 0; class < 5; class++ {
 			rec(3, class, true, attempt(sock, class, true, false))
 		}
 	}
@@ -271,6 +311,12 @@ func runMTLS(o opts) error {
 	defer sink.Close()
 	base, _ := os.MkdirTemp("", "hx-mtls")
 	defer os.RemoveAll(base)
+	makeSysCA()
+	caFile, caDir := filepath.Join(base, "trust-store.pem"), filepath.Join(base, "trust-store.d")
+	os.WriteFile(caFile, sysCA.pem, 0o644)
+	os.MkdirAll(caDir, 0o755)
+	os.Setenv("SSL_CERT_FILE", caFile) // read lazily by crypto/x509, once per process: set before any TLS is done here
+	os.Setenv("SSL_CERT_DIR", caDir)
 	hdir := filepath.Join(base, "host")
 	os.MkdirAll(hdir, 0o755)
 	os.Setenv("TMPDIR", hdir) // host-side brokered listeners are created here
